@@ -124,6 +124,8 @@ def run_plan(plan, emit):
             obs = {"st": "exc", "exc": type(e).__name__, "msg": str(e)[:300], "where": where}
             if harness:
                 obs["harness"] = True
+            if getattr(e, "dsim_ctx", None):
+                obs["ctx"] = e.dsim_ctx
         emit("O %d %s" % (k, json.dumps(jsonable(obs), allow_nan=True, separators=(",", ":"))))
     ex.close()
     emit("E")
